@@ -47,7 +47,7 @@ theorem deleteBody_cixp {fs : FS} (hM : MedX fs.vol fs.dev.disk files gh [])
       tauto) hU
     have hci1 : CIXP P fs.vol fs1.dev.disk := by rw [← hv1]; exact cixp_of_medX hM1 hR1 (dirInit_of_used hM1 hU1)
     have hnr := extra_not_rawRef hM1 hR1
-    obtain ⟨fs2, hrun2, hcr2⟩ := free_cixp hM1 hR1 (dirInit_of_used hM1 hU1) hn1 hc1 (A := A ++ B) (B := [])
+    obtain ⟨fs2, hrun2, hcr2, _⟩ := free_cixp hM1 hR1 (dirInit_of_used hM1 hU1) hn1 hc1 (A := A ++ B) (B := [])
       (tail := tail) (r := sCluster fs1.vol.fatType o) (by simp) hnr
     -- the frame of the release
     have hch : Chain fs1.vol fs1.dev.disk (sCluster fs1.vol.fatType o) (sCluster fs1.vol.fatType o :: tail) :=
